@@ -748,6 +748,8 @@ fn run_case(out: &mut Sink, seed: u64, case: usize, directed: bool) {
     cx.out.line(format!("reset {}", cx.cfg.maxlog), "ok".into());
     if directed {
         directed_case(&mut cx);
+    } else if case % 16 == 5 {
+        wide_case(&mut cx);
     } else {
         random_case(&mut cx);
     }
@@ -787,6 +789,62 @@ fn directed_case(cx: &mut Ctx<'_>) {
     }
     if cx.restorable.len() >= 1 && cx.rollback(1) {
         cx.dump("rollback(1) to the populated store");
+    }
+}
+
+/// many concurrent prior lookups: 150…300 keys with overflow values (some > 15 pages), cold leaf cache, every key
+/// hinted and blindly rewritten in ONE batch — more than `TARGET_OVERFLOW_REQUESTS` (128) requests are alive at once,
+/// so the worker's dormant-request accounting and the throttled `resubmit_overflow` are exercised; then an overlay on
+/// top deletes half of them and a session on it rewrites everything again
+fn wide_case(cx: &mut Ctx<'_>) {
+    let n = cx.rng.range(150, 300);
+    let base = cx.rng.bytes32();
+    let mut keys: Vec<Key> = (0..n).map(|_| with_prefix(&mut cx.rng, &base, 3)).collect();
+    keys.sort();
+    keys.dedup();
+    cx.universe = keys.clone();
+    cx.out.count("wide_case");
+    let mut batch = vec![];
+    for (i, k) in keys.iter().enumerate() {
+        let len = if i % 40 == 7 { 15 * 4092 + 1 + cx.rng.below(9000) } else { cx.rng.range(1333, 9000) };
+        let mut x = cx.rng.next();
+        let v: Val = (0..len)
+            .map(|_| {
+                x = x.wrapping_mul(6364136223846793005).wrapping_add(1442695040888963407);
+                (x >> 33) as u8
+            })
+            .collect();
+        batch.push((*k, Act::Write(Some(v))));
+    }
+    let Some(f) = cx.session(&[], batch, "wide populate") else { return };
+    if !cx.commit_fin(f) {
+        return;
+    }
+    if !cx.reopen() {
+        return;
+    }
+    // every key rewritten (hints decided by `session`), cold cache
+    let batch: Vec<(Key, Act)> = keys
+        .iter()
+        .enumerate()
+        .map(|(i, k)| (*k, if i % 5 == 0 { Act::Write(None) } else { Act::Write(Some(vec![i as u8; 10])) }))
+        .collect();
+    let Some(f) = cx.session(&[], batch, "wide rewrite") else { return };
+    let a = cx.make_overlay(f);
+    let batch: Vec<(Key, Act)> = keys.iter().map(|k| (*k, Act::Write(Some(vec![1u8; 1400])))).collect();
+    let Some(f) = cx.session(&[a], batch, "wide on overlay") else { return };
+    if !cx.commit_overlay(a) {
+        return;
+    }
+    if !cx.commit_fin(f) {
+        return;
+    }
+    cx.dump("wide commits");
+    while !cx.restorable.is_empty() {
+        if !cx.rollback(1) {
+            break;
+        }
+        cx.dump("wide rollback");
     }
 }
 
